@@ -535,7 +535,9 @@ func printVal(v interface{}, t string) string {
 	case "bool":
 		return fmt.Sprintf(`%t`, v)
 	case "string":
-		return fmt.Sprintf(`"%s"`, v)
+		// an enum value is any string: quotes, backslashes and control
+		// characters have to be escaped in the literal
+		return fmt.Sprintf(`%q`, fmt.Sprint(v))
 	}
 	return ""
 }
